@@ -206,7 +206,9 @@ def case_job(job):
 
 # ------------------------------------------------------------------ header-label references (RefLabels.tla)
 NL = 3
-LABEL = {"x": "north east", "y": "south", "z": "mid", "": None}
+LABEL = {"x": "north east", "y": "south", "z": "mid", "": None,
+         # labels that cannot be printed bare: operators, an apostrophe, the span separator
+         "w": "a-b", "v": "it's", "u": "up:down"}
 
 
 def rl_cfg(bug="none", emit=False, nl=3, maxtotal=2, inv=True):
@@ -264,10 +266,29 @@ def parse_line_text(text, axis, snames, single):
     out = {"wellformed": False, "num": False, "sq": 0, "tq": "", "l1": "", "l2": "", "n1": 0, "n2": 0, "a1": False, "a2": False}
     if text is None:
         return out
-    parts = text.split("::")
+
+    def split_outside_quotes(t, sep):
+        """split at sep where it is not inside a '...' name (a doubled apostrophe inside quotes is an escaped one)"""
+        res, cur, i, inq = [], "", 0, False
+        while i < len(t):
+            if t[i] == "'":
+                if inq and t[i:i + 2] == "''":
+                    cur += "''"
+                    i += 2
+                    continue
+                inq = not inq
+            if not inq and t.startswith(sep, i):
+                res.append(cur)
+                cur = ""
+                i += len(sep)
+                continue
+            cur += t[i]
+            i += 1
+        return res + [cur]
+    parts = split_outside_quotes(text, "::")
     if len(parts) > 3:
         return out
-    ends = parts[-1].split(":")
+    ends = split_outside_quotes(parts[-1], ":")
     if len(ends) > 2:
         return out
     if len(parts) >= 2:
@@ -276,8 +297,14 @@ def parse_line_text(text, axis, snames, single):
         out["sq"] = snames.index(parts[0]) + 1 if parts[0] in snames else -1
     kinds = []
     for k, e in enumerate(ends):
+        quoted = len(e) >= 2 and e[0] == "'" and e[-1] == "'"
+        if quoted:
+            e = e[1:-1].replace("''", "'")          # a quoted name; the '$' of an absolute end is inside the quotes
         a = e.startswith("$")
         tok = e[1:] if a else e
+        if quoted:
+            kinds.append(("l", tok, a))
+            continue
         if axis == "rows" and re.fullmatch(r"\d+", tok):
             kinds.append(("n", int(tok), a))                # row k (0-based) prints as k+1 = its 1-based line index (no header rows)
         elif axis == "cols" and re.fullmatch(r"[A-Z]+", tok):
@@ -530,7 +557,7 @@ def run(ctx):
     # larger documents: up to 3 sheets x 3 tables, a third label, random references
     for n in range(40 if q else 1500):
         ns = [rng.sample(["A", "B", "C"], rng.randint(1, 3)) for _ in range(rng.randint(1, 3))]
-        labs = [[[rng.choice(["x", "y", "z", "", "x"]) for _ in range(NL)] for _ in sh] for sh in ns]
+        labs = [[[rng.choice(["x", "y", "z", "", "x", "w", "v", "u"]) for _ in range(NL)] for _ in sh] for sh in ns]
         tabs = [(s + 1, t + 1) for s in range(len(ns)) for t in range(len(ns[s]))]
         full = []
         for _ in range(30):
